@@ -344,7 +344,7 @@ func typesFor(where string, depth int, cfg Cfg) []string {
 			ts = append(ts, "caller")
 		}
 		if depth > 0 {
-			ts = append(ts, "dict", "arr", "arrm", "obj", "embed", "fieldsmap", "fieldsslice", "func", "dict", "arr", "obj", "embed", "fieldsmap", "fieldsslice")
+			ts = append(ts, "dict", "arr", "arrm", "obj", "embed", "fieldsmap", "fieldsslice", "func", "dict", "arr", "obj", "embed", "fieldsmap", "fieldsslice", "fieldsodd", "fieldsbad")
 		}
 	case "context":
 		ts = append(ts, scalarTypes...)
@@ -354,7 +354,7 @@ func typesFor(where string, depth int, cfg Cfg) []string {
 			ts = append(ts, "caller")
 		}
 		if depth > 0 {
-			ts = append(ts, "dict", "arr", "arrm", "obj", "embed", "fieldsmap", "fieldsslice", "dict", "arr", "obj", "embed", "fieldsmap", "fieldsslice")
+			ts = append(ts, "dict", "arr", "arrm", "obj", "embed", "fieldsmap", "fieldsslice", "dict", "arr", "obj", "embed", "fieldsmap", "fieldsslice", "fieldsodd", "fieldsbad")
 		}
 	case "array":
 		ts = append(ts, scalarTypes...)
@@ -562,7 +562,9 @@ func (g *G) ValOf(typ, where string, depth int, label string) Val {
 			v.L = append(v.L, g.Val("array", depth-1, label+".ae"))
 		}
 		return v
-	case "fieldsmap", "fieldsslice":
+	case "fieldsbad":
+		return Val{T: typ, I: int64(rapid.IntRange(0, 4).Draw(t, label+".bad"))}
+	case "fieldsmap", "fieldsslice", "fieldsodd":
 		v := Val{T: typ}
 		n := rapid.IntRange(0, 4).Draw(t, label+".fn")
 		seen := map[string]bool{}
@@ -575,7 +577,11 @@ func (g *G) ValOf(typ, where string, depth int, label string) Val {
 			g.inFields = true
 			fv := g.Val("fields", depth-1, label+".fv")
 			g.inFields = false
-			v.Ops = append(v.Ops, Op{K: k, V: fv})
+			op := Op{K: k, V: fv}
+			if typ != "fieldsmap" && rapid.IntRange(0, 7).Draw(t, label+".badkey") == 0 {
+				op.BadKey = true
+			}
+			v.Ops = append(v.Ops, op)
 		}
 		return v
 	}
@@ -593,7 +599,7 @@ func (g *G) Ops(where string, depth int, label string) []Op {
 		v := g.Val(where, depth, label+".v")
 		op := Op{V: v}
 		switch v.T {
-		case "embed", "fieldsmap", "fieldsslice", "func", "stack", "ctx", "timestamp", "caller", "err", "reset":
+		case "embed", "fieldsmap", "fieldsslice", "fieldsodd", "fieldsbad", "func", "stack", "ctx", "timestamp", "caller", "err", "reset":
 			if v.T == "getctx" {
 				op.K = g.Key(label + ".k")
 			}
